@@ -734,10 +734,69 @@ def sweep_catalogue():
     return out
 
 
+# ------------------------------------------------------------------ a selected operand that raises: the error propagates,
+# nothing else is evaluated (no retry with another operand, no second evaluation)
+BOOM_EXC = [IndexError, KeyError, ValueError, TypeError, AttributeError, ZeroDivisionError]
+BOOM_TEXTS = [      # (text, ids evaluated before the raising probe)
+    ('0.switchCase(boom({n}, $e), tick(90, 1), tick(91, 2))', []),
+    ('1.switchCase(tick(90, 0), boom({n}, $e), tick(91, 2))', []),
+    ('7.switchCase(tick(90, 0), tick(91, 1), boom({n}, $e))', []),
+    ('(-1).switchCase(tick(90, 0), tick(91, 1), boom({n}, $e))', []),
+    ('switch(tick(1, true) => boom({n}, $e), tick(90, true) => tick(91, 1))', [1]),
+    ('switch(boom({n}, $e) => tick(90, 1), tick(91, true) => tick(92, 2))', []),
+    ('switch(tick(1, false) => tick(90, 1), tick(2, true) => boom({n}, $e))', [1, 2]),
+    ('coalesce(boom({n}, $e), tick(90, 1))', []),
+    ('coalesce(tick(1, null), boom({n}, $e), tick(90, 1))', [1]),
+    ('tick(1, true) and boom({n}, $e)', [1]),
+    ('tick(1, false) or boom({n}, $e)', [1]),
+    ('boom({n}, $e) and tick(90, true)', []),
+    ('selectCase(tick(1, false), boom({n}, $e), tick(90, true))', [1]),
+    ('[tick(1, 1), tick(2, 2)].select(boom({n}, $e)).toList()', [1, 2]),
+    ('[tick(1, 1), tick(2, 2)].where(boom({n}, $e)).toList()', [1, 2]),
+    ('tick(1, 5).examine(boom({n}, $e), tick(90, 1))', [1]) if False else ('tick(1, null)?.boom({n}, $e)', [1]),
+]
+BTBOX = [(i,) for i in range(len(BOOM_TEXTS))]
+
+
+def _boom(id, exc):
+    L.LOG.append(id)
+    raise exc('boom %r' % (id,))
+
+
+L.CTX.register_function(_boom, name='boom')
+
+
+def raising_operand(t: int, e: int) -> bool:
+    """
+    pre: 0 <= t < len(BOOM_TEXTS) and 0 <= e < len(BOOM_EXC)
+    post: _
+    """
+    tmpl, before = BOOM_TEXTS[BTBOX[t][0]]
+    exc = BOOM_EXC[BTBOX[e][0]]
+    with H.NoTracing():
+        del L.LOG[:]
+        text = tmpl.replace('{n}', '50')
+        c = L.CTX.create_child_context()
+        c['e'] = exc
+        try:
+            r = ('ok', yq.stmt(text, L.ENG).evaluate(context=c))
+        except Exception as x:
+            r = ('err', type(x).__name__)
+        log = list(L.LOG)
+        if tmpl.startswith('tick(1, null)?.'):
+            ok = r == ('ok', None) and log == [1]              # ?. on null never evaluates its right side
+        else:
+            ok = r == ('err', exc.__name__) and log == before + [50]
+    return H.done(ok)
+
+
 def conditions(tier, seed):
     quick = tier == 'quick'
     t = 90 if quick else 400
-    out = []
+    out = [{'name': 'raising_operand', 'func': 'raising_operand', 'timeout': 200,
+            'bounds': '%d templates of short-circuit / branching / per-element functions whose SELECTED operand raises one of %d '
+                      'exception classes: the error propagates, the trace is the prefix up to the raising probe (selectors)' % (
+                          len(BOOM_TEXTS), len(BOOM_EXC))}]
     covered = set()
     for covers, name, func, text, model, n, extra in lazy_catalogue(quick):
         covered.update(covers)
@@ -810,6 +869,10 @@ def replay(cond, args):
                 'what': '%s%r raised %r' % (cond['name'], vals, e)}
     if ok:
         return {'reproduced': False}
+    if cond['func'] == 'raising_operand':
+        return {'reproduced': True, 'key': 'C11/raising-operand',
+                'what': '%s with boom raising %s: trace %r - the selected operand\'s error must propagate and nothing else be '
+                        'evaluated' % (BOOM_TEXTS[vals['t']][0], BOOM_EXC[vals['e']].__name__, list(L.LOG))}
     text = cond['param'].get('text')
     return {'reproduced': True, 'key': 'C11/order/%s' % cond['name'],
             'what': '%s with %r: probe log %r differs from the reference order (model %s)' % (
